@@ -688,7 +688,18 @@ class MinimizeRecorder:
       x = self.ctx.fresh('optx', _np.shape(x0))
     else:
       x = _np.array(x0, copy=True)
-    res = types.SimpleNamespace(x=x, nit=1, success=True, message='stub', fun=None)
+    # an OptimizeResult-like answer: code may read the usual fields (fun, jac, nit, nfev, status, success, message); `fun` is a
+    # machine number (the value at the returned point in concrete runs, an arbitrary constant in symbolic runs: nothing depends on it
+    # in the obligations)
+    fval = _np.float64(0.0)
+    if not (self.ctx is not None and self.ctx.symbolic):
+      try:
+        v = fun(_np.asarray(x, dtype=float), *args)
+        fval = _np.float64(v[0] if isinstance(v, tuple) else v)
+      except Exception:   # noqa
+        pass
+    res = types.SimpleNamespace(x=x, nit=1, nfev=1, njev=1, status=0, success=True, message='stub', fun=fval,
+                                jac=_np.zeros(_np.shape(x0)))
     rec['result'] = res
     return res
 
